@@ -3,8 +3,8 @@ the extracted reference semantics (ocaml/sql.ml: check_answer)."""
 import json
 from . import common, sqlgen
 
-UNSUPPORTED_MARKERS = ("not implemented", "Not implemented", "not yet implemented", "unsupported", "Unsupported",
-                       "not supported", "Not yet supported", "TODO")
+UNSUPPORTED_MARKERS = ("not implemented", "Not implemented", "not yet implemented", "Not yet implemented", "unsupported", "Unsupported",
+                       "not supported", "Not yet supported", "not yet supported", "TODO")
 
 
 def cell_sx(c):
